@@ -25,6 +25,7 @@ class Generated:
         self.fn_props = {}  # fn name -> (props, auto)
         self.sidecars = {}
         self.stubs = []
+        self.notes = []
 
     def add(self, text, origin, tags):
         for ln in text.split('\n'):
@@ -139,7 +140,15 @@ def process_template(path, crate, repo, gen=None, depth=0):
         elif kw in ('struct', 'enum', 'const'):
             a = arg.split(None, 2)
             module = '' if a[0] in ('-', 'crate') else a[0]
-            toks = X.strip_attrs(crate.find_item(module, kw, a[1]))
+            try:
+                toks = X.strip_attrs(crate.find_item(module, kw, a[1]))
+            except ExtractionError:
+                if kw == 'const':
+                    # a constant that no longer exists: the code using it is gone too (or fails to type-check => exit 2)
+                    gen.notes.append(f'const {module}::{a[1]} not found in the expanded crate')
+                    i += 1
+                    continue
+                raise
             extra = a[2] if len(a) > 2 else ''
             txt = X.item_text(toks)
             txt = re.sub(r'\bpub\(crate\)\s+', 'pub ', txt)
